@@ -5,21 +5,31 @@ import (
 	"bytes"
 	"encoding/base64"
 	"fmt"
+	"io"
 	"io/fs"
+	"net"
+	"os"
 	"strconv"
 	"strings"
+	"sync"
 	"testing/fstest"
+	"time"
+
+	"github.com/sirupsen/logrus"
 
 	"github.com/AstromechZA/etcpwdparse"
 
 	"hop.computer/hop/authgrants"
 	"hop.computer/hop/authkeys"
 	"hop.computer/hop/certs"
+	"hop.computer/hop/common"
 	"hop.computer/hop/config"
 	"hop.computer/hop/core"
 	"hop.computer/hop/hopserver"
 	"hop.computer/hop/keys"
 	"hop.computer/hop/pkg/thunks"
+	"hop.computer/hop/tubes"
+	"hop.computer/hop/userauth"
 	. "hopverif/hvlib"
 )
 
@@ -36,6 +46,7 @@ func main() {
 	Main(map[string]*Suite{
 		"C05":      {Gen: gen, Run: run},
 		"C05parse": {Gen: genParse, Run: runParse},
+		"C05sess":  {Gen: genSess, Run: runSess},
 	})
 }
 
@@ -236,7 +247,12 @@ func genUsers(r *Rng) []string {
 
 func hx(s string) string { return HexOrDash([]byte(s)) }
 
-func gen(g *GenCtx) {
+func gen(g *GenCtx) { genHist(g, 700, 20000) }
+
+// genSess: the same histories, fewer (every login is a real user-auth exchange over tubes)
+func genSess(g *GenCtx) { genHist(g, 300, 8000) }
+
+func genHist(g *GenCtx, nQuick, nThorough int) {
 	r := g.R
 	// corpus: the smallest fail-open inputs
 	k0 := bytes.Repeat([]byte{7}, 32)
@@ -246,10 +262,10 @@ func gen(g *GenCtx) {
 		g.Op("authkey %s %x", hx("alice"), k0)
 		g.Op("login %s %x", hx("alice"), k0)
 	}
-	n := 700
+	n := nQuick
 	maxLines := 8
 	if g.Thorough() {
-		n = 20000 / g.Parts
+		n = nThorough / g.Parts
 		maxLines = 40
 	}
 	for c := 0; c < n; c++ {
@@ -400,6 +416,7 @@ func newWorld(ak, ag bool) *world {
 	w := &world{cfg: &config.ServerConfig{}, ks: authkeys.NewSyncAuthKeySet(), fsys: fstest.MapFS{}, exists: map[string]bool{}}
 	w.cfg.EnableAuthorizedKeys = ak
 	w.cfg.EnableAuthgrants = ag
+	w.cfg.DataTimeout = 30 * time.Second
 	srv, err := hopserver.NewHopServerExt(nil, w.cfg, w.ks)
 	if err != nil {
 		panic(err)
@@ -435,7 +452,140 @@ func grantIDs(ags []authgrants.Authgrant) string {
 	return strings.Join(ids, ",")
 }
 
-func run(in *bufio.Scanner, out *bufio.Writer) {
+func run(in *bufio.Scanner, out *bufio.Writer) { runWith(in, out, false) }
+
+// runSess answers `login` through the real hopSession.checkAuthorization: a client muxer opens a
+// user-auth tube over an in-memory message connection and sends the user name, the server side runs
+// checkAuthorization on a session whose transport handle reports the key as the authenticated
+// client certificate; the confirmation byte the client sees must agree with the method's result.
+func runSess(in *bufio.Scanner, out *bufio.Writer) { runWith(in, out, true) }
+
+// ---- in-memory transport.MsgConn pair
+
+type memEnd struct {
+	in     chan []byte
+	peer   *memEnd
+	closed chan struct{}
+	once   sync.Once
+	mu     sync.Mutex
+	rdl    time.Time
+}
+
+type timeoutErr struct{}
+
+func (timeoutErr) Error() string   { return "i/o timeout" }
+func (timeoutErr) Timeout() bool   { return true }
+func (timeoutErr) Temporary() bool { return true }
+func (timeoutErr) Unwrap() error   { return os.ErrDeadlineExceeded }
+
+func memPair() (*memEnd, *memEnd) {
+	a := &memEnd{in: make(chan []byte, 4096), closed: make(chan struct{})}
+	b := &memEnd{in: make(chan []byte, 4096), closed: make(chan struct{})}
+	a.peer, b.peer = b, a
+	return a, b
+}
+
+func (c *memEnd) ReadMsg(b []byte) (int, error) {
+	c.mu.Lock()
+	dl := c.rdl
+	c.mu.Unlock()
+	var tc <-chan time.Time
+	if !dl.IsZero() {
+		t := time.NewTimer(time.Until(dl))
+		defer t.Stop()
+		tc = t.C
+	}
+	select {
+	case m := <-c.in:
+		return copy(b, m), nil
+	case <-c.closed:
+		return 0, net.ErrClosed
+	case <-tc:
+		return 0, timeoutErr{}
+	}
+}
+
+func (c *memEnd) WriteMsg(b []byte) error {
+	m := append([]byte{}, b...)
+	select {
+	case <-c.closed:
+		return net.ErrClosed
+	default:
+	}
+	select {
+	case c.peer.in <- m:
+	case <-c.peer.closed: // nobody listens any more: the datagram is lost
+	case <-c.closed:
+		return net.ErrClosed
+	}
+	return nil
+}
+
+func (c *memEnd) Read(b []byte) (int, error)  { return c.ReadMsg(b) }
+func (c *memEnd) Write(b []byte) (int, error) { return len(b), c.WriteMsg(b) }
+func (c *memEnd) Close() error                { c.once.Do(func() { close(c.closed) }); return nil }
+func (c *memEnd) LocalAddr() net.Addr         { return &net.UDPAddr{IP: net.IPv4(127, 0, 0, 1), Port: 1} }
+func (c *memEnd) RemoteAddr() net.Addr        { return &net.UDPAddr{IP: net.IPv4(127, 0, 0, 1), Port: 2} }
+func (c *memEnd) SetDeadline(t time.Time) error {
+	return c.SetReadDeadline(t)
+}
+func (c *memEnd) SetReadDeadline(t time.Time) error {
+	c.mu.Lock()
+	c.rdl = t
+	c.mu.Unlock()
+	return nil
+}
+func (c *memEnd) SetWriteDeadline(time.Time) error { return nil }
+
+func (w *world) sessionLogin(user string, k keys.DHPublicKey) string {
+	a, b := memPair()
+	type sres struct {
+		ok    bool
+		user  string
+		grant bool
+		acts  []authgrants.Authgrant
+	}
+	ch := make(chan sres, 1)
+	go func() {
+		ok, u, g, acts := w.srv.VerifCheckAuthorization(b, &certs.Certificate{Type: certs.Leaf, PublicKey: k})
+		ch <- sres{ok, u, g, acts}
+	}()
+	cmux := tubes.Client(a, &tubes.Config{Timeout: 30 * time.Second, Log: logrus.WithField("muxer", "verif-client")})
+	defer func() { go cmux.Stop() }()
+	t, err := cmux.CreateReliableTube(common.UserAuthTube)
+	if err != nil {
+		return "client-tube-failed"
+	}
+	conf := make(chan bool, 1)
+	go func() { conf <- userauth.RequestAuthorization(t, user); t.Close() }()
+	var r sres
+	select {
+	case r = <-ch:
+	case <-time.After(60 * time.Second):
+		return "server-timeout"
+	}
+	var confirmed bool
+	select {
+	case confirmed = <-conf:
+	case <-time.After(60 * time.Second):
+		return "client-timeout"
+	}
+	switch {
+	case r.ok != confirmed:
+		return fmt.Sprintf("mismatch-server-%v-client-%v", r.ok, confirmed)
+	case !r.ok:
+		return "reject"
+	case r.user != user:
+		return "wrong-user"
+	case r.grant:
+		return "grant " + grantIDs(r.acts)
+	}
+	return "listed"
+}
+
+var _ io.Reader = (*memEnd)(nil)
+
+func runWith(in *bufio.Scanner, out *bufio.Writer, session bool) {
 	w := newWorld(false, false)
 	for in.Scan() {
 		f := strings.Fields(in.Text())
@@ -523,8 +673,13 @@ func run(in *bufio.Scanner, out *bufio.Writer) {
 			if !ok || !ok2 {
 				break
 			}
-			// the decision of hopSession.checkAuthorization (hopserver/session.go), which itself needs
-			// a live transport session: AuthorizeKey first, on error AuthorizeKeyAuthGrant iff enabled
+			if session {
+				res = Guard(func() string { return w.sessionLogin(string(u), k) })
+				break
+			}
+			// the decision of hopSession.checkAuthorization (hopserver/session.go) replayed from the two
+			// public entry points (suite C05sess runs the method itself): AuthorizeKey first, on error
+			// AuthorizeKeyAuthGrant iff enabled
 			res = Guard(func() string {
 				if err := w.srv.AuthorizeKey(string(u), k); err == nil {
 					return "listed"
